@@ -4,6 +4,7 @@
 -/
 import YataProofs.Indicators.History
 import YataProofs.MALaws
+import YataProofs.SelectionIndex
 namespace Yata.Ind
 open Yata
 
@@ -143,6 +144,23 @@ theorem sigs_spec (s : Aroon) (up dn : ℚ) (idx : Nat × Nat) :
   refine ⟨?_, ?_, ?_, ?_, ?_⟩ <;> simp [Aroon.sigs, counter_step]
 
 end Aroon
+
+/-- C05 (Aroon values): from invariant trackers one step returns `(period − age)/period` of the newest highest
+    high and of the newest lowest low of the last `period` candles; the trackers stay invariant -/
+theorem Aroon.vals_spec {P : Nat} {s : Aroon} (k : Candle ℚ)
+    (hh : HighestIndex.Inv P s.highest_index) (hl : LowestIndex.Inv P s.lowest_index) :
+    ∃ v hi li s', Aroon.vals P s k = .ok (v, (hi, li), s') ∧
+      v.map VExp.value = [((s.cfg.period - hi : Nat) : ℚ) / (s.cfg.period : ℚ), ((s.cfg.period - li : Nat) : ℚ) / (s.cfg.period : ℚ)] ∧
+      HighestIndex.Inv P s'.highest_index ∧ LowestIndex.Inv P s'.lowest_index ∧
+      hi = s'.highest_index.index ∧ li = s'.lowest_index.index ∧
+      Window.toList s'.highest_index.window = (Window.toList s.highest_index.window).tail ++ [k.high] ∧
+      Window.toList s'.lowest_index.window = (Window.toList s.lowest_index.window).tail ++ [k.low] ∧ s'.cfg = s.cfg := by
+  obtain ⟨hi, h1, hn1, hinv1, ho1, hw1⟩ := HighestIndex.next_spec k.high hh
+  obtain ⟨li, l1, hn2, hinv2, ho2, hw2⟩ := LowestIndex.next_spec k.low hl
+  refine ⟨[.unit (((s.cfg.period - hi : Nat) : ℚ) / (s.cfg.period : ℚ)) 1, .unit (((s.cfg.period - li : Nat) : ℚ) / (s.cfg.period : ℚ)) 1],
+    hi, li, { s with highest_index := h1, lowest_index := l1 }, ?_, ?_, hinv1, hinv2, ho1, ho2, hw1, hw2, rfl⟩
+  · simp only [Aroon.vals, bind, Except.bind, hn1, hn2, pure, Except.pure]
+  · simp [VExp.value, VExp.unit]
 
 /-! ### RSI: value formula and range for an average that keeps non-negative inputs non-negative -/
 namespace RSI
